@@ -195,7 +195,7 @@ def gen_int_cases(rng, thorough):
     def add(t, pos, x=None, base=None, why=''):
         cases.append({'sub': 'int', 'ty': t, 'pos': pos, 'x': x, 'base': base, 'why': why})
 
-    reps = 3 if thorough else 1
+    reps = 8 if thorough else 2
     for t in INT_TYPES:
         for v in int_values(rng, t):
             add(t, [A_int(v)], why='int')
@@ -403,7 +403,7 @@ def gen_dt_cases(rng, thorough):
     def add_str(s, why, copy=False):
         cases.append({'sub': 'dt', 'arg': {'k': 'str', 's': common.cps(s)}, 'copy': copy, 'why': why})
 
-    reps = 6 if thorough else 1
+    reps = 16 if thorough else 3
     # every UTC offset -999..+999 exhaustively, every legal asterisk pattern, random valid fields
     for _ in range(reps):
         for off in range(-999, 1000):
@@ -700,6 +700,54 @@ def oracle_real(run, kind, bits, text):
         run.violate({'kind': 'real_roundtrip_differs', 'of': kind}, case, {'text': text, 'parsed': repr(float(y))})
 
 
+UNP_SPECIMENS = ['', ' ', '0', '7', ' 12 ', '\t-5\n', '+5', '255', '256', '-129', '1_0', '1__0', '_1', '0x1F', '0X1f', '-0x80', '+0xFF', '0x', '0xG',
+                 '0x1_F', ' 0x10 ', '0b11', '0o17', '010', '3.7', '-3.7', '1e3', '1E3', '1.0E+22', '1.5', '.5', '5.', 'inf', '-inf', 'INF', '-INF',
+                 'Infinity', 'nan', 'NaN', 'NAN', '1e400', '-1e400', '1e-400', 'abc', '1 2', '1,5', '٣', '１２', '\x1c7\x1f', '\xa07', '7\u2003',
+                 '18446744073709551615', '18446744073709551616', '-9223372036854775808', '-9223372036854775809', '9' * 400,
+                 '1' + '0' * 308, '1' + '0' * 309, '0x' + 'f' * 300, '4294967296', '65536', '1.0000000000000002', '0.1', '-0.0', '-0']
+
+
+def gen_unp_items(rng, real_items, thorough):
+    """(text, cimtype) pairs for TupleParser.unpack_numeric: texts pywbem itself produced + specimens/near misses"""
+    items = []
+    n = 60000 if thorough else 12000
+    for _ in range(n):
+        kind, bits, txt, _c = real_items[rng.randrange(len(real_items))]
+        t = 'real32' if kind == 'real32' else 'real64'
+        r = rng.random()
+        if r < 0.15:
+            txt = rng.choice(PYSPACES + ['\x1d', '\x1e']) + txt + rng.choice(PYSPACES)
+        elif r < 0.25:
+            t = rng.choice(INT_TYPES)
+        items.append((txt, t))
+    for txt in UNP_SPECIMENS:
+        for t in INT_TYPES + ['real32', 'real64']:
+            items.append((txt, t))
+    for _ in range(3000 if thorough else 600):
+        t = rng.choice(INT_TYPES + ['real32', 'real64'])
+        lo, hi = spec_limits(t) if t in INT_TYPES else (-2 ** 70, 2 ** 70)
+        v = rng.choice([lo - 1, lo, hi, hi + 1, rng.randint(lo, hi), rng.randint(-2 ** 70, 2 ** 70)])
+        txt = rng.choice([str(v), hex(v), ' %d ' % v, '%d.0' % v, '%d.5' % v, '%.3e' % v, mutate_intstr(rng, str(v))])
+        items.append((txt, t))
+    return items
+
+
+def run_unp_real(txt, t):
+    try:
+        r = unpack_numeric(txt, t)
+    except Exception as e:  # noqa
+        return common.exc_json(e)
+    return sc_json(r)
+
+
+def unp_req_item(txt, t):
+    try:
+        pf = str(f2b(float(txt.strip())))
+    except ValueError:
+        pf = None
+    return {'s': common.cps(txt), 'pf': pf, 't': t}
+
+
 def xml_roundtrip(kind, x):
     """the full path: CIMProperty -> tocimxml -> XML text -> tupletree -> tupleparse"""
     import pywbem
@@ -863,7 +911,7 @@ def gen_cv_cases(rng, thorough):
         for t in types:
             cases.append({'sub': 'cv', 'v': v, 't': t, 'via': 'cimvalue'})
     # arrays: homogeneous, with None items, mixed, empty
-    nl = 1500 if thorough else 300
+    nl = 6000 if thorough else 1000
     for _ in range(nl):
         n = rng.choice([0, 1, 2, 3])
         first = rng.choice(S)
@@ -872,7 +920,7 @@ def gen_cv_cases(rng, thorough):
             items = []
         cases.append({'sub': 'cv', 'v': {'k': 'list', 'l': items}, 't': rng.choice(types), 'via': 'cimvalue'})
     # the value setters of the four typed element classes (same function behind them)
-    ns = 3000 if thorough else 700
+    ns = 12000 if thorough else 2500
     for _ in range(ns):
         v = rng.choice(S)
         if rng.random() < 0.15:
@@ -1048,26 +1096,28 @@ def eval_case(run, c, model=None):
     raise ValueError(c)
 
 
-def run(run):
-    rng = run.rng
-    th = run.thorough
-    run.rule = ('int: 8 types x (boundaries +-1, 2^k+-1, random in/out of range) x {int, x=, decimal str, fancy str with sign/'
-                'underscore/prefix/white space, (str, base) positional/keyword/bytes for bases 2..36 and 0, float incl. '
-                'fractions/neighbours/specials/random bit patterns, bool, None, other, bad bases, x-keyword quirk} plus near-miss '
-                'mutations; dt: every UTC offset -999..+999 x random legal asterisk pattern, every asterisk start 0..24 for both '
-                'kinds, calendar sweep incl. leap days, invalid fields, near-miss mutations of the 25-char string, datetime/'
-                'timedelta/CIMDateTime inputs incl. offsets beyond +-999 and negative/huge intervals; real: special values, '
-                'powers of ten, every float32 exponent, random doubles and float32 by bit pattern; cv: (value-kind x type) matrix '
-                'incl. None/unknown type, arrays, the value setters of the 4 typed element classes. non-trivial = the real code '
-                'accepted the input (an object was built / a text was produced); distinct = distinct JSON spec')
-    run.assumptions += [
-        'RealCodec hypothesis: CPython format(x, ".17G"/".11G") and float(text) (correct rounding, G-format shape) — K feeds '
-        "CPython's own answers to the model and the oracle checks the round trip on the real code",
-        'CPython int(): Unicode white space / decimal digit tables of Unicode 15.0 (CPython 3.12) are part of the model',
-        'datetime tzinfo offsets that are not whole minutes are outside "expressible" and not generated',
-        'CIMInstanceName.from_wbem_uri is a parameter of the cimvalue model (C07 covers it)',
-        'objects with user-defined __int__/__float__/__bool__ are outside the quantifier (ints/strings/floats …)',
-    ]
+RULE = ('int: 8 types x (boundaries +-1, 2^k+-1, random in/out of range) x {int, x=, decimal str, fancy str with sign/'
+        'underscore/prefix/white space, (str, base) positional/keyword/bytes for bases 2..36 and 0, float incl. '
+        'fractions/neighbours/specials/random bit patterns, bool, None, other, bad bases, x-keyword quirk} plus near-miss '
+        'mutations; dt: every UTC offset -999..+999 x random legal asterisk pattern, every asterisk start 0..24 for both '
+        'kinds, calendar sweep incl. leap days, invalid fields, near-miss mutations of the 25-char string, datetime/'
+        'timedelta/CIMDateTime inputs incl. offsets beyond +-999 and negative/huge intervals; real: special values, '
+        'powers of ten, every float32 exponent, random doubles and float32 by bit pattern; cv: (value-kind x type) matrix '
+        'incl. None/unknown type, arrays, the value setters of the 4 typed element classes. non-trivial = the real code '
+        'accepted the input (an object was built / a text was produced); distinct = distinct JSON spec')
+
+ASSUMPTIONS = [
+    'RealCodec hypothesis: CPython format(x, ".17G"/".11G") and float(text) (correct rounding, G-format shape) — K feeds '
+    "CPython's own answers to the model and the oracle checks the round trip on the real code",
+    'CPython int(): Unicode white space / decimal digit tables of Unicode 15.0 (CPython 3.12) are part of the model',
+    'datetime tzinfo offsets that are not whole minutes are outside "expressible" and not generated',
+    'CIMInstanceName.from_wbem_uri is a parameter of the cimvalue model (C07 covers it)',
+    'objects with user-defined __int__/__float__/__bool__ are outside the quantifier (ints/strings/floats …)',
+]
+
+
+def collect(run, rng, th, scale=1.0):
+    """real code + oracle on every generated case; returns what the model comparison needs"""
     check_config(run)
     check_patterns(run)
     cases = gen_int_cases(rng, th) + gen_dt_cases(rng, th) + gen_cv_cases(rng, th)
@@ -1087,9 +1137,9 @@ def run(run):
         else:
             reqs.append(req)
             idx.append(i)
-    # reals: texts from the real code, CPython's own formatting as the codec oracle for the model
+    # reals: texts from the real code (oracle on each), CPython's own formatting as the codec oracle for the model
     n64, n32 = (2000000, 400000) if th else (200000, 40000)
-    b64, b32 = gen_real_bits(rng, n64, n32)
+    b64, b32 = gen_real_bits(rng, int(n64 * scale), int(n32 * scale))
     real_items = []          # (kind, bits, real text, codec text)
     for b in b64:
         x = b2f(b)
@@ -1100,36 +1150,18 @@ def run(run):
     for b in b32:
         x = f32_of_bits(b)
         real_items.append(('real32', b, real_text('real32', x), format(x, '.11G')))
-    CH = 5000
-    real_reqs = [{'op': 'real', 's': [it[3] for it in real_items[i:i + CH]]} for i in range(0, len(real_items), CH)]
-    answers = common.run_driver(PROP, [{'op': 'limits'}] + reqs + real_reqs)
-    lim = answers[0]
-    # the limits the model uses are the ones extracted from this repo; compare with the classes' attributes
-    for name, lo, hi in lim['limits']:
-        cls = int_class(name)
-        if (int(lo), int(hi)) != (cls.minvalue, cls.maxvalue):
-            run.disagree({'sub': 'limits', 'ty': name}, [lo, hi], [str(cls.minvalue), str(cls.maxvalue)], 'integer limits')
-    for i, ans in zip(idx, answers[1:1 + len(reqs)]):
-        if ans != outs[i]:
-            run.disagree(cases[i], ans, outs[i], cases[i]['sub'])
-    pos = 0
     shape = {}
-    for ans in answers[1 + len(reqs):]:
-        for txt in ans['ok']:
-            kind, bits, real_txt, codec_txt = real_items[pos]
-            pos += 1
-            if txt != real_txt:
-                run.disagree({'sub': 'real', 'kind': kind, 'bits': str(bits)}, txt, real_txt, 'real text')
-            oracle_real(run, kind, bits, real_txt)
-            key = 'special' if real_txt in ('NaN', 'INF', '-INF') else \
-                ('dot0-inserted' if codec_txt != real_txt else 'unchanged') + ('-exp' if 'E' in real_txt else '')
-            shape[key] = shape.get(key, 0) + 1
+    for kind, bits, real_txt, codec_txt in real_items:
+        oracle_real(run, kind, bits, real_txt)
+        key = 'special' if real_txt in ('NaN', 'INF', '-INF') else \
+            ('dot0-inserted' if codec_txt != real_txt else 'unchanged') + ('-exp' if 'E' in real_txt else '')
+        shape[key] = shape.get(key, 0) + 1
     for k, n in shape.items():
         run.count('real-shape:' + k, n)
     run.evaluations += len(real_items)
     run.nontrivial.update(('real', it[0], it[1]) for it in real_items)
     # full XML path for a sample
-    nx = 20000 if th else 3000
+    nx = int((20000 if th else 3000) * scale)
     for kind, bits, real_txt, _ in real_items[:200] + [real_items[rng.randrange(len(real_items))] for _ in range(nx)]:
         if kind == 'float':
             continue
@@ -1142,13 +1174,66 @@ def run(run):
                                                                                         'path': 'xml'}, {'parsed': repr(y)})
     run.extra['sizes'] = {'int': sum(1 for c in cases if c['sub'] == 'int'), 'dt': sum(1 for c in cases if c['sub'] == 'dt'),
                           'cv': sum(1 for c in cases if c['sub'] == 'cv'), 'real': len(real_items)}
+    return cases, outs, reqs, idx, real_items
+
+
+def run(run):
+    run.rule = RULE
+    run.assumptions += ASSUMPTIONS
+    cases, outs, reqs, idx, real_items = collect(run, run.rng, run.thorough)
+    CH = 5000
+    real_reqs = [{'op': 'real', 's': [it[3] for it in real_items[i:i + CH]]} for i in range(0, len(real_items), CH)]
+    unp = gen_unp_items(run.rng, real_items, run.thorough)
+    unp_real = [run_unp_real(txt, t) for txt, t in unp]
+    unp_reqs = [{'op': 'unp', 'items': [unp_req_item(txt, t) for txt, t in unp[i:i + CH]]} for i in range(0, len(unp), CH)]
+    for o in unp_real:
+        run.count('unpack_numeric:' + o.get('exc', 'ok'))
+    run.evaluations += len(unp)
+    run.extra['sizes']['unpack_numeric'] = len(unp)
+    answers = common.run_driver(PROP, [{'op': 'limits'}] + reqs + real_reqs + unp_reqs)
+    lim = answers[0]
+    # the limits / digits the model uses are the ones extracted from this repo; compare with the live classes
+    for name, lo, hi in lim['limits']:
+        cls = int_class(name)
+        if (int(lo), int(hi)) != (cls.minvalue, cls.maxvalue):
+            run.disagree({'sub': 'limits', 'ty': name}, [lo, hi], [str(cls.minvalue), str(cls.maxvalue)], 'integer limits')
+    for i, ans in zip(idx, answers[1:1 + len(reqs)]):
+        if ans != outs[i]:
+            run.disagree(cases[i], ans, outs[i], cases[i]['sub'])
+    pos = 0
+    for ans in answers[1 + len(reqs) + len(real_reqs):]:
+        for o in ans['ok']:
+            if o != unp_real[pos]:
+                run.disagree({'sub': 'unpack_numeric', 'text': common.cps(unp[pos][0]), 't': unp[pos][1]}, o, unp_real[pos],
+                             'TupleParser.unpack_numeric')
+            pos += 1
+    pos = 0
+    for ans in answers[1 + len(reqs):1 + len(reqs) + len(real_reqs)]:
+        for txt in ans['ok']:
+            kind, bits, real_txt, codec_txt = real_items[pos]
+            pos += 1
+            if txt != real_txt:
+                run.disagree({'sub': 'real', 'kind': kind, 'bits': str(bits)}, txt, real_txt, 'real text')
+
+
+def oracle_only(run):
+    """the Lean side did not build (e.g. a pinned table changed): no model to compare with, but the property oracle
+    still runs on the real code over the same generated cases"""
+    run.rule = RULE + ' [oracle only: the Lean build failed]'
+    run.assumptions += ASSUMPTIONS
+    collect(run, run.rng, run.thorough)
 
 
 def search(run):
-    """proof or K broke and the oracle saw nothing: widen the oracle-only search on the real code"""
+    """proof or K broke and the oracle saw nothing (beyond known findings): widen the oracle-only search on the real code"""
     import random
+    known = common.load_known_all()
     before = len(run.violations)
     rng = random.Random(run.seed + 77)
+
+    def fresh():
+        return [v for v in run.violations[before:] if not any(common.matches(f, PROP, v['sig']) for f in known)]
+
     check_config(run)
     # model-guided neighbourhood for integer limits: old and new boundary +-1 of every type, in every form
     for t in INT_TYPES:
@@ -1160,19 +1245,11 @@ def search(run):
                       {'sub': 'int', 'ty': t, 'pos': [], 'x': A_str(to_base(v, 16) if v >= 0 else '-' + to_base(v, 16)), 'base': A_int(16)}):
                 out, obj = run_int_real(c)
                 oracle_int(run, c, out, obj)
-    if len(run.violations) == before:
-        for rep in range(3):
-            for c in gen_int_cases(rng, True) + gen_dt_cases(rng, True) + gen_cv_cases(rng, True):
-                eval_case(run, c)
-            if len(run.violations) > before:
-                break
-    if len(run.violations) == before:
-        b64, b32 = gen_real_bits(rng, 300000, 100000)
-        for b in b64:
-            oracle_real(run, 'real64', b, real_text('real64', b2f(b)))
-        for b in b32:
-            oracle_real(run, 'real32', b, real_text('real32', f32_of_bits(b)))
-    return run.violations[before:]
+    if not fresh():
+        sub = common.Run(PROP, 'thorough', run.seed + 77)
+        collect(sub, rng, True, scale=0.25)
+        run.violations += sub.violations
+    return fresh()
 
 
 def replay(payload):
